@@ -34,7 +34,7 @@ func init() {
 		Run: func(w *mon.Worker) { runRefcount(w, "C09") }, Workers: 16, GOMAXPROCS: 4,
 		QuickTimeout: 8 * time.Minute, ThoroughTimeout: 40 * time.Minute,
 		QuickFloor: 1500, ThoroughFloor: 40000, CaseTimeout: 8 * time.Second,
-		RequiredCounters: []string{"resolver_entries_checked", "quiescent_delivery_judgements", "restarts_inside_resolver_return", "addref_nil_callback_calls", "references_added_after_resolution", "gated_templates", "RefCountResolveStart"},
+		RequiredCounters: []string{"resolver_entries_checked", "quiescent_delivery_judgements", "restarts_inside_resolver_return", "addref_nil_callback_calls", "references_added_after_resolution", "gated_templates", "root_cancel_templates", "RefCountResolveStart"},
 		Rule: "same workload as C08 plus bursts of 2-5 restarts (SetContext / released()) while a resolver ignores cancellation, and a gated template holding resolver A in its return path; a resolver active counter is asserted at every entry; at quiescence with a live context and held references the newest resolver call's result must be in the target containers and be the last thing every held reference callback received; " +
 			"every API call must return (panics are caught, calls blocked at quiescence are violations), AddRef(nil) is issued in every state; non-trivial = at least two restarts inside one resolver's return latency, or a reference added after resolution; distinct = distinct event orders",
 		Assumptions: rfAssume,
@@ -56,19 +56,21 @@ type rfVal struct{ id int }
 // rfGen: val/err/hasRel are written by the resolver before retA is stored and must only be
 // read after Ret() returned non-zero (acquire/release through the atomic), see the accessors.
 type rfGen struct {
-	g        int
-	valF     *rfVal
-	errF     error
-	relF     bool
-	enter    int64
-	retA     atomic.Int64
-	ctxEpoch int64
-	relCount atomic.Int64
-	relStamp atomic.Int64
-	invalid  atomic.Int64 // stamp at which the harness was about to call released()
-	released func()
-	ctx      context.Context
-	gate     chan struct{}
+	g           int
+	valF        *rfVal
+	errF        error
+	relF        bool
+	enter       int64
+	retA        atomic.Int64
+	ctxEpoch    int64
+	relCount    atomic.Int64
+	relStamp    atomic.Int64
+	zeroEpoch   int64
+	heldAtEntry int64
+	invalid     atomic.Int64 // stamp at which the harness was about to call released()
+	released    func()
+	ctx         context.Context
+	gate        chan struct{}
 }
 
 type rfHolder struct {
@@ -93,6 +95,10 @@ type rfWorld struct {
 	shared    *rfVal
 	active    atomic.Int64
 	ctxEpoch  atomic.Int64
+	// heldCount is a lower bound of the references the library knows (incremented after AddRef returned,
+	// decremented before Release is called); zeroEpoch counts how often it reached zero
+	heldCount atomic.Int64
+	zeroEpoch atomic.Int64
 	mu        sync.Mutex
 	gens      []*rfGen
 	holders   []*rfHolder
@@ -108,6 +114,7 @@ const (
 	rfSlow
 	rfIgnoreCtx // waits for the harness (or the end of the case), ignoring its context
 	rfValueAfterCancel
+	rfErrorWithRelAfterCancel // waits for its context to be cancelled, then returns an error together with a release func
 )
 
 func newRfWorld(c *mon.Case, keepUnref, sameValue, withCtx bool, ctx context.Context, behave func(int) (int, int)) *rfWorld {
@@ -146,7 +153,7 @@ func (g *rfGen) HasRel() bool { return g.retA.Load() != 0 && g.relF }
 
 func (w *rfWorld) resolver(ctx context.Context, released func()) (*rfVal, func(), error) {
 	c := w.c
-	gen := &rfGen{ctx: ctx, released: released, ctxEpoch: w.ctxEpoch.Load(), gate: make(chan struct{})}
+	gen := &rfGen{ctx: ctx, released: released, ctxEpoch: w.ctxEpoch.Load(), zeroEpoch: w.zeroEpoch.Load(), heldAtEntry: w.heldCount.Load(), gate: make(chan struct{})}
 	w.mu.Lock()
 	gen.g = len(w.gens) + 1
 	w.gens = append(w.gens, gen)
@@ -165,7 +172,7 @@ func (w *rfWorld) resolver(ctx context.Context, released func()) (*rfVal, func()
 		case <-gen.gate:
 		case <-w.endCase:
 		}
-	case rfValueAfterCancel:
+	case rfValueAfterCancel, rfErrorWithRelAfterCancel:
 		select {
 		case <-ctx.Done():
 		case <-gen.gate:
@@ -185,7 +192,7 @@ func (w *rfWorld) resolver(ctx context.Context, released func()) (*rfVal, func()
 	switch outcome {
 	case rfError:
 		gen.errF = fmt.Errorf("resolve-error-g%d", gen.g)
-	case rfErrorWithRel:
+	case rfErrorWithRel, rfErrorWithRelAfterCancel:
 		gen.errF = fmt.Errorf("resolve-error-g%d", gen.g)
 		rel = mkRel()
 	default:
@@ -210,6 +217,21 @@ func (w *rfWorld) releaseFn(gen *rfGen) {
 		c.Violate("release", "refcount-release-func-called-twice", "the release function of resolver call g%d ran %d times", gen.g, n)
 	}
 	gen.relStamp.Store(st)
+	if gen.Val() == nil && gen.Err() != nil {
+		// an error result with a release func: no held reference may still believe it is the current result
+		w.mu.Lock()
+		hs := append([]*rfHolder(nil), w.holders...)
+		w.mu.Unlock()
+		for _, h := range hs {
+			if h.gone.Load() || h.releasing.Load() || !h.hasCb || !h.lastRes.Load() {
+				continue
+			}
+			if pe := h.lastErr.Load(); pe != nil && *pe == gen.Err() {
+				c.Violate("release", "refcount-released-while-reference-told-valid", "the release function of the error result g%d runs while held reference %d was last told that this result is current", gen.g, h.id)
+				return
+			}
+		}
+	}
 	if gen.Val() == nil || w.sameValue {
 		return
 	}
@@ -236,6 +258,13 @@ func (w *rfWorld) releaseFn(gen *rfGen) {
 	}
 }
 
+// decHeld is called right before a reference known to the harness is released.
+func (w *rfWorld) decHeld() {
+	if w.heldCount.Add(-1) <= 0 {
+		w.zeroEpoch.Add(1)
+	}
+}
+
 func (w *rfWorld) newHolder(kind string, hasCb bool) *rfHolder {
 	h := &rfHolder{id: int(w.holdSeq.Add(1)), kind: kind, hasCb: hasCb}
 	w.mu.Lock()
@@ -247,6 +276,9 @@ func (w *rfWorld) newHolder(kind string, hasCb bool) *rfHolder {
 // refCb returns the reference callback feeding the holder's shadow state (runs under the RefCount mutex).
 func (w *rfWorld) refCb(h *rfHolder) func(bool, *rfVal, error) {
 	return func(resolved bool, v *rfVal, err error) {
+		if resolved && h.cbCount.Load() > 0 && h.lastRes.Load() {
+			w.c.Violate("release", "refcount-reference-not-told-gone", "reference %d received a second 'resolved' callback (val %s, err %v) without having been told in between that the previous result (val %s) is gone", h.id, valID(v), err, valID(h.val.Load()))
+		}
 		h.cbCount.Add(1)
 		h.lastRes.Store(resolved)
 		if err != nil {
@@ -291,6 +323,9 @@ func runRefcount(w *mon.Worker, prop string) {
 	if prop == "C09" {
 		for i := 0; i < w.Share(w.Scale(800, 20000)); i++ {
 			w.Case("gated-resolver", nil, rfGatedCase)
+		}
+		for i := 0; i < w.Share(w.Scale(400, 10000)); i++ {
+			w.Case("root-cancel-in-flight", nil, rfRootCancelCase)
 		}
 	}
 }
@@ -351,6 +386,9 @@ func refcountCase(c *mon.Case, prop string, idx int) {
 			}
 			return rfValue, lat % 2
 		case 4:
+			if x%20 < 10 {
+				return rfErrorWithRelAfterCancel, lat % 50
+			}
 			return rfValueAfterCancel, lat
 		default:
 			return rfValue, lat % 2
@@ -366,6 +404,7 @@ func refcountCase(c *mon.Case, prop string, idx int) {
 	var ctxMu sync.Mutex
 	ctxLive := withCtx
 	ctxCleared := false
+	ctxRootCancelled := false // the container still holds a context, but its owner cancelled it
 	curRoot := rootCancel
 
 	stop := make(chan struct{})
@@ -412,6 +451,7 @@ func refcountCase(c *mon.Case, prop string, idx int) {
 					c.Rec(fmt.Sprint("ref", a), fmt.Sprint("AddRef holder ", h.id, " cb=", withCb), nil)
 					resolvedBefore := w.target.GetValue() != nil
 					ref := w.rc.AddRef(cb)
+					w.heldCount.Add(1)
 					if resolvedBefore {
 						c.Count("references_added_after_resolution", 1)
 						if prop == "C09" {
@@ -424,6 +464,7 @@ func refcountCase(c *mon.Case, prop string, idx int) {
 					hr := mine[j]
 					hr.h.releasing.Store(true)
 					c.Rec(fmt.Sprint("ref", a), fmt.Sprint("Release holder ", hr.h.id), nil)
+					w.decHeld()
 					hr.ref.Release()
 					hr.h.gone.Store(true)
 					if x.IntN(4) == 0 {
@@ -442,6 +483,7 @@ func refcountCase(c *mon.Case, prop string, idx int) {
 				hr := mine[0]
 				hr.h.releasing.Store(true)
 				c.Rec(fmt.Sprint("ref", a), fmt.Sprint("Release holder ", hr.h.id, " (wind-down)"), nil)
+				w.decHeld()
 				hr.ref.Release()
 				hr.h.gone.Store(true)
 				mine = mine[1:]
@@ -510,12 +552,12 @@ func refcountCase(c *mon.Case, prop string, idx int) {
 				ctx, tag := cx.fresh()
 				c.Rec("ctx", fmt.Sprint("SetContext new#", tag), nil)
 				w.rc.SetContext(ctx)
-				ctxLive, ctxCleared = true, false
+				ctxLive, ctxCleared, ctxRootCancelled = true, false, false
 				curRoot = cx.cancel
 			case 3:
 				c.Rec("ctx", "ClearContext", nil)
 				w.rc.ClearContext()
-				ctxLive, ctxCleared = false, true
+				ctxLive, ctxCleared, ctxRootCancelled = false, true, false
 			case 4:
 				if cx.cur != nil {
 					c.Rec("ctx", "SetContext same", nil)
@@ -526,7 +568,7 @@ func refcountCase(c *mon.Case, prop string, idx int) {
 				if ctxLive && curRoot != nil {
 					c.Rec("ctx", "cancel the root context behind the container's back", nil)
 					curRoot()
-					ctxLive = false
+					ctxLive, ctxRootCancelled = false, true
 				}
 			}
 			w.ctxEpoch.Add(1)
@@ -674,6 +716,7 @@ func refcountCase(c *mon.Case, prop string, idx int) {
 	}
 	ctxMu.Lock()
 	liveCtx, clearedCtx := ctxLive, ctxCleared
+	_ = ctxRootCancelled
 	ctxMu.Unlock()
 	keepMu.Lock()
 	heldNow := append([]heldRef(nil), kept...)
@@ -1059,6 +1102,64 @@ func rfGatedCase(c *mon.Case) {
 	if !mon.Quiesce(5 * time.Second) {
 		c.Inconclusive("no quiescence after release")
 		return
+	}
+	h.releasing.Store(true)
+	ref.Release()
+	h.gone.Store(true)
+	w.rc.ClearContext()
+	mon.Quiesce(5 * time.Second)
+}
+
+// rfRootCancelCase: the owner cancels the container's context while the only resolver call is in flight;
+// nothing else happens. The call's result (usually the context's error) must still be delivered.
+func rfRootCancelCase(c *mon.Case) {
+	r := c.Rng
+	outcome := []int{rfIgnoreCtx, rfErrorWithRelAfterCancel, rfValueAfterCancel}[r.IntN(3)]
+	behave := func(g int) (int, int) {
+		if g == 1 {
+			return outcome, 0
+		}
+		return rfValue, 0
+	}
+	rootCtx, rootCancel := context.WithCancel(context.Background())
+	defer rootCancel()
+	w := newRfWorld(c, r.IntN(2) == 0, false, true, rootCtx, behave)
+	defer close(w.endCase)
+	h := w.newHolder("ref", true)
+	ref := w.rc.AddRef(w.refCb(h))
+	if !mon.Quiesce(5 * time.Second) {
+		c.Inconclusive("no quiescence at start")
+		return
+	}
+	gl := w.genList()
+	if len(gl) != 1 || gl[0].Ret() != 0 {
+		c.Inconclusive("resolver not in flight")
+		return
+	}
+	c.Rec("d", "cancel the root context while g1 is in flight", nil)
+	rootCancel()
+	close(gl[0].gate)
+	if !mon.Quiesce(5 * time.Second) {
+		c.Inconclusive("no quiescence after the cancellation")
+		return
+	}
+	c.Count("root_cancel_templates", 1)
+	c.NonTrivial()
+	c.Mix(uint64(outcome))
+	g := gl[0]
+	if len(w.genList()) != 1 || g.Ret() == 0 {
+		c.Inconclusive("unexpected resolver activity")
+		return
+	}
+	delivered := h.lastRes.Load() && g.relCount.Load() == 0
+	if g.Err() == nil {
+		delivered = delivered && h.val.Load() == g.Val() && w.target.GetValue() == g.Val()
+	} else {
+		pe, le := w.targetErr.GetValue(), h.lastErr.Load()
+		delivered = delivered && pe != nil && *pe == g.Err() && le != nil && *le == g.Err()
+	}
+	if !delivered {
+		c.Violate("resolver", "refcount-result-dropped", "the container's context was cancelled by its owner while the only resolver call g1 was in flight; nothing else happened; the call returned (val %s, err %v) but its result was not delivered: reference told resolved=%v, release func ran %d times, target holds %s", valID(g.Val()), g.Err(), h.lastRes.Load(), g.relCount.Load(), valID(w.target.GetValue()))
 	}
 	h.releasing.Store(true)
 	ref.Release()
